@@ -641,7 +641,7 @@ EXPLANATION = ("Real expand_connectors executed symbolically: whole function per
                "representation invariant + abstract-partition contract of the connection table proved for the real merge fragment from every well-formed small table (induction over clauses); emission fragment proved per table and sign pattern.")
 MANIFEST = {
     "category": "proof",
-    "text": "The real expand_connectors is executed symbolically on the real pymoca.ast classes. (1) Whole function: for all 258 sequences (two orientations, three inside/outside patterns) of 1..3 connect clauses over four connectors (inside/outside patterns) and eight curated graphs (chain, star, cycle, merge of separate sets, redundant connects, repeated and reversed pairs), z3 proves that the emitted equations and the reference connection-set equations (potentials equal per set, sum(inside)-sum(outside)=0 per set, unconnected flows zero) imply each other for all real values; ordinary equations kept; connector symbols stripped. (2) Induction over clauses: the real flow branch, run from every well-formed connection table over <=4 keys and every pair of ends, keeps the table well-formed (each key maps to the one dict object containing it) and yields exactly the old partition with the two ends' sets joined. (3) The real emission loop, from every well-formed table over <=5 keys and four sign patterns, emits equations equivalent to the sets' flow balances. A bounded replay flattens generated Modelica models with random connection graphs and compares solution spaces (rank test) with the reference.",
+    "text": "The real expand_connectors is executed symbolically on the real pymoca.ast classes. (1) Whole function: for all 258 sequences (two orientations, three inside/outside patterns) of 1..3 connect clauses over four connectors (inside/outside patterns) and eight curated graphs (chain, star, cycle, merge of separate sets, redundant connects, repeated and reversed pairs), z3 proves that the emitted equations and the reference connection-set equations (potentials equal per set, sum(inside)-sum(outside)=0 per set, unconnected flows zero) imply each other for all real values; ordinary equations kept; connector symbols stripped. (2) Induction over clauses: the real flow branch, run from every well-formed connection table over <=4 keys and every pair of ends, keeps the table well-formed (each key maps to the one dict object containing it) and yields exactly the old partition with the two ends' sets joined. (3) The real emission loop, from every well-formed table over <=5 keys and four sign patterns, emits equations equivalent to the sets' flow balances. A bounded replay flattens generated Modelica models with random connection graphs and compares solution spaces (rank test) with the reference. One of the two connector classes has several flow variables.",
     "note": "Proved per enumerated graph/table shape (all real values), not for arbitrarily large tables; arrays of connectors are outside the decided scope.",
     "technique": "contract-based deductive verification: symbolic execution of the real function and fragments, representation invariant and abstract-view postconditions, linear real arithmetic validity by z3 (cvc5 fallback); bounded replay",
 }
